@@ -2,6 +2,8 @@ package main
 
 import (
 	"fmt"
+	"os"
+	"path/filepath"
 	"strings"
 
 	casbin "github.com/casbin/casbin/v2"
@@ -52,6 +54,11 @@ func c04Families() []c04Fam {
 		{Kind: "add", Pt: "p", R1: [][]string{{"alice", "data2", "read"}}},
 		{Kind: "clear"},
 		{Kind: "load"},
+		// identity update and a batch whose old and new rules overlap: the links of the old rules
+		// must be removed BEFORE those of the new rules are added (outside the F08 guard when the
+		// new rule is listed: compared with the model, no fresh-enforcer predicate)
+		{Kind: "update", Pt: "g", R1: [][]string{{"bob", "admin"}}, R2: [][]string{{"bob", "admin"}}},
+		{Kind: "updatemany", Pt: "g", R1: [][]string{{"bob", "admin"}, {"alice", "admin"}}, R2: [][]string{{"alice", "admin"}, {"bob", "alice"}}},
 	}
 	dm.name, dm.conf = "domain", machDomain
 	for _, s := range []string{"alice", "admin"} {
@@ -70,7 +77,42 @@ func c04Families() []c04Fam {
 		{Kind: "clear"},
 		{Kind: "load"},
 	}
-	return []c04Fam{rb, dm}
+	// names whose concatenations collide ("a"+"bc" = "ab"+"c"): the g() memo must keep the
+	// arguments apart (the NUL separator itself is F26)
+	var cl c04Fam
+	cl.name, cl.conf = "rbac", c11Conf04
+	for _, s := range []string{"a", "ab", "abc"} {
+		cl.reqs = append(cl.reqs, []string{s, "data1", "read"})
+	}
+	cl.al = []mOp{
+		{Kind: "add", Pt: "g", R1: [][]string{{"a", "bc"}}},
+		{Kind: "remove", Pt: "g", R1: [][]string{{"a", "bc"}}},
+		{Kind: "add", Pt: "g", R1: [][]string{{"ab", "c"}}},
+		{Kind: "remove", Pt: "g", R1: [][]string{{"ab", "c"}}},
+		{Kind: "add", Pt: "g", R1: [][]string{{"abc", ""}}},
+		{Kind: "add", Pt: "p", R1: [][]string{{"bc", "data1", "read"}}},
+		{Kind: "remove", Pt: "p", R1: [][]string{{"bc", "data1", "read"}}},
+		{Kind: "add", Pt: "p", R1: [][]string{{"c", "data1", "read"}}},
+		{Kind: "add", Pt: "p", R1: [][]string{{"", "data1", "read"}}},
+	}
+	var cd c04Fam
+	cd.name, cd.conf = "domain", machDomain
+	for _, s := range []string{"a", "ab"} {
+		for _, d := range []string{"d", "cd", "bcd"} {
+			cd.reqs = append(cd.reqs, []string{s, d, "data1", "read"})
+		}
+	}
+	cd.al = []mOp{
+		{Kind: "add", Pt: "g", R1: [][]string{{"a", "bc", "d"}}},
+		{Kind: "add", Pt: "g", R1: [][]string{{"a", "b", "cd"}}},
+		{Kind: "add", Pt: "g", R1: [][]string{{"ab", "c", "d"}}},
+		{Kind: "remove", Pt: "g", R1: [][]string{{"a", "bc", "d"}}},
+		{Kind: "add", Pt: "p", R1: [][]string{{"b", "cd", "data1", "read"}}},
+		{Kind: "add", Pt: "p", R1: [][]string{{"bc", "d", "data1", "read"}}},
+		{Kind: "add", Pt: "p", R1: [][]string{{"c", "d", "data1", "read"}}},
+		{Kind: "add", Pt: "p", R1: [][]string{{"b", "d", "data1", "read"}}},
+	}
+	return []c04Fam{rb, dm, cl, cd}
 }
 
 var c11Conf04 = machConf{Name: "rbac1", Text: `[request_definition]
@@ -93,7 +135,7 @@ func c04Enf(e *casbin.Enforcer, req []string) string {
 	return B(ok)
 }
 
-func c04Seq(c *Ctx, id string, f c04Fam, content []prule, seq []mOp) {
+func c04Seq(c *Ctx, id string, f c04Fam, content []prule, seq []mOp, direct bool) {
 	var items []string
 	ask := func() {
 		for _, r := range f.reqs {
@@ -127,6 +169,9 @@ func c04Seq(c *Ctx, id string, f c04Fam, content []prule, seq []mOp) {
 		c.Count(o.Kind)
 	}
 	// the property's predicate: a fresh enforcer from the listed rules
+	if !direct {
+		return
+	}
 	fresh := c04Fresh(f.conf.Text, m.E, nil)
 	for _, r := range f.reqs {
 		if a, b := c04Enf(m.E, r), c04Enf(fresh, r); a != b {
@@ -170,42 +215,53 @@ func init() {
 			depth = 4
 		}
 		c.Rule = fmt.Sprintf("(A) every sequence to depth %d over an alphabet of 12 (RBAC) / 9 (domains) policy and grouping changes incl. ClearPolicy and LoadPolicy, every request of the universe asked before and after each change, compared with the Coq model and with a fresh enforcer; (B) seeded histories over a wider alphabet (matching functions, SetRoleManager+BuildRoleLinks, EnforceWithMatcher, batch/filtered/update calls, DeleteUser) checked against a fresh real enforcer after every step. Distinct = sequence; non-trivial = at least one decision changes along the sequence.", depth)
-		for _, f := range c04Families() {
+		for fi, f := range c04Families() {
 			content := []prule{}
-			if f.name == "rbac" {
+			switch fi {
+			case 0:
 				content = []prule{{"p", []string{"admin", "data1", "read"}}, {"g", []string{"bob", "admin"}}}
-			} else {
+			case 1:
 				content = []prule{{"p", []string{"admin", "d1", "data1", "read"}}, {"g", []string{"alice", "admin", "d1"}}}
+			case 2:
+				content = []prule{{"p", []string{"c", "data1", "read"}}, {"g", []string{"a", "bc"}}}
+			case 3:
+				content = []prule{{"p", []string{"bc", "d", "data1", "read"}}, {"g", []string{"a", "b", "cd"}}}
 			}
 			n := len(f.al)
-			var rec func(seq []mOp)
+			var rec func(seq []mOp, inGuard bool)
 			cnt := 0
-			rec = func(seq []mOp) {
+			rec = func(seq []mOp, inGuard bool) {
 				if len(seq) > 0 {
 					cnt++
-					id := fmt.Sprintf("c04.%s.%d", f.name, cnt)
-					c04Seq(c, id, f, content, seq)
+					id := fmt.Sprintf("c04.%d%s.%d", fi, f.name, cnt)
+					c04Seq(c, id, f, content, seq, inGuard)
 					c.NonTrivial(id)
+					if !inGuard {
+						c.Count("outside-F08-guard(model only)")
+					}
 				}
-				if len(seq) == depth {
-					return
+				if len(seq) == depth || !inGuard {
+					return // a state reached outside the F08 guard is not explored further
 				}
 				for i := 0; i < n; i++ {
 					o := f.al[i]
-					// F08 guard: update target must not be listed — evaluated on a replay
-					if o.Kind == "update" {
+					// F08 guard: update targets must not be listed — evaluated on a replay
+					g := true
+					if o.Kind == "update" || o.Kind == "updatemany" {
 						m := newMach(f.conf, false, false, "none", content)
 						for _, x := range seq {
 							m.apply(x)
 						}
-						if containsRule(m.current(o.Pt), o.R2[0]) {
-							continue
+						for _, nr := range o.R2 {
+							if containsRule(m.current(o.Pt), nr) || containsRule(o.R1, nr) {
+								g = false
+							}
 						}
 					}
-					rec(append(append([]mOp(nil), seq...), o))
+					rec(append(append([]mOp(nil), seq...), o), g)
 				}
 			}
-			rec(nil)
+			rec(nil, true)
 		}
 		c.Exhaust = true
 		c04Wide(c)
@@ -301,9 +357,22 @@ func c04Wide(c *Ctx) {
 		}
 		return b.String()
 	}
+	dir, derr := os.MkdirTemp("", "verif-c04-")
+	if derr != nil {
+		panic(derr)
+	}
+	defer os.RemoveAll(dir)
+	mpath := filepath.Join(dir, "model.conf")
+	_ = os.WriteFile(mpath, []byte(c04PatternModel), 0o644)
 	for h := 0; h < nh; h++ {
-		mm, _ := model.NewModelFromString(c04PatternModel)
-		e, _ := casbin.NewEnforcer(mm)
+		var e *casbin.Enforcer
+		fileBacked := h%2 == 0
+		if fileBacked {
+			e, _ = casbin.NewEnforcer(mpath)
+		} else {
+			mm, _ := model.NewModelFromString(c04PatternModel)
+			e, _ = casbin.NewEnforcer(mm)
+		}
 		// registered functions so far (replayed on the fresh enforcer)
 		var regs []func(*casbin.Enforcer)
 		gRules := [][]string{{"alice", "admin"}, {"bob", "admin"}, {"/u/1", "admin"}, {"alice", "/u/*"}}
@@ -316,7 +385,42 @@ func c04Wide(c *Ctx) {
 		id := fmt.Sprintf("c04.wide.%d", h)
 		for i := 0; i < n; i++ {
 			_ = ask(e) // memoise before the change
-			switch c.Rng.Intn(12) {
+			switch c.Rng.Intn(14) {
+			case 12:
+				// SetModel: a new model object with the same text and the currently listed rules,
+				// then BuildRoleLinks (SetModel itself builds none).  Compiled matchers of the old
+				// model (with their g() memo bound to the old role managers) must not survive; the
+				// registered matching functions do not survive either (initialize() makes new role
+				// managers), so the fresh enforcer gets none.
+				m2, _ := model.NewModelFromString(c04PatternModel)
+				for _, sec := range []string{"p", "g"} {
+					for pt, ast := range e.GetModel()[sec] {
+						for _, r := range ast.Policy {
+							_ = m2.AddPolicy(sec, pt, append([]string(nil), r...))
+						}
+					}
+				}
+				keepG := c.Rng.Intn(2) == 0
+				if !keepG {
+					// drop the grouping rules from the new model: every role-based decision must go
+					for pt := range m2["g"] {
+						m2["g"][pt].Policy = nil
+						m2["g"][pt].PolicyMap = map[string]int{}
+					}
+				}
+				e.SetModel(m2)
+				_ = e.BuildRoleLinks()
+				regs = nil
+				patternOn, removedUnderPattern = false, false
+				trace = append(trace, fmt.Sprint("setmodel keepG=", keepG))
+			case 13:
+				// LoadModel from the CONF file: the policy is gone with the old model
+				if fileBacked {
+					_ = e.LoadModel()
+					regs = nil
+					patternOn, removedUnderPattern = false, false
+					trace = append(trace, "loadmodel")
+				}
 			case 0, 1:
 				r := gRules[c.Rng.Intn(len(gRules))]
 				_, _ = e.AddGroupingPolicy(toIface(r)...)
